@@ -871,3 +871,93 @@ func (a *A) ruleSingletonState() {
 		}
 	}
 }
+
+// ruleCallerMapNotHandedOut: a result row handed to the sinks, queued on the result channel or
+// returned by EmitSync is read after the call returned (async sinks, a consumer of ToChannel, the
+// caller of EmitSync): it must not be the caller's own row map, which the producer may reuse for the
+// next row. Uses the taint of ruleCallerMap: no element of a delivered batch and no returned result
+// has level "may be the caller's map itself".
+func (a *A) ruleCallerMapNotHandedOut() int {
+	if a.taint == nil {
+		a.ruleCallerMap(map[string]string{})
+	}
+	t := a.taint
+	n := 0
+	S := a.Named("stream", "Stream")
+	for _, name := range []string{"sendResultNonBlocking", "callSinksAsync"} {
+		target := a.methodOf(S, name)
+		for _, fn := range a.ModFuncs {
+			for _, site := range callsTo(fn, target) {
+				cc := callCommon(site)
+				n++
+				construct := fmt.Sprintf("%s->%s#not-the-callers-map", fname(fn), name)
+				var bad ssa.Value
+				// elements stored into the batch slice (literal or appended)
+				seen := map[ssa.Value]bool{}
+				var walk func(v ssa.Value, d int)
+				walk = func(v ssa.Value, d int) {
+					if v == nil || seen[v] || d > 8 {
+						return
+					}
+					seen[v] = true
+					switch x := v.(type) {
+					case *ssa.Slice:
+						if al, ok := x.X.(*ssa.Alloc); ok {
+							for _, r := range *al.Referrers() {
+								if ia, ok := r.(*ssa.IndexAddr); ok {
+									for _, rr := range *ia.Referrers() {
+										if st, ok := rr.(*ssa.Store); ok && st.Addr == ssa.Value(ia) && t.val[st.Val] >= tTop {
+											bad = st.Val
+										}
+									}
+								}
+							}
+							return
+						}
+						walk(x.X, d+1)
+					case *ssa.Phi:
+						for _, e := range x.Edges {
+							walk(e, d+1)
+						}
+					case *ssa.Call:
+						if ac, ok := isBuiltinCall(x, "append"); ok {
+							walk(ac.Args[0], d+1)
+							for _, e := range appendedElems(ac) {
+								if t.val[e] >= tTop {
+									bad = e
+								}
+							}
+						}
+					}
+				}
+				walk(cc.Args[1], 0)
+				if bad != nil {
+					a.Bad(construct, site.Pos(), "a row of the delivered batch may be the caller's own map (%s): a producer that reuses its map rewrites a result that was already delivered; flow: %s", TermOf(bad, nil).String(), t.path(bad))
+				} else {
+					a.Ok(construct, site.Pos(), "no element of the delivered batch is the caller's map itself")
+				}
+			}
+		}
+	}
+	for _, s := range []struct{ rel, typ, m string }{{"", "Streamsql", "EmitSync"}, {"stream", "Stream", "ProcessSync"}} {
+		fn := a.Method(s.rel, s.typ, s.m)
+		n++
+		construct := fname(fn) + "#returns-not-the-callers-map"
+		var bad ssa.Value
+		for _, b := range fn.Blocks {
+			if ret, ok := b.Instrs[len(b.Instrs)-1].(*ssa.Return); ok && len(ret.Results) > 0 {
+				for _, l := range phiLeaves(ret.Results[0]) {
+					if t.val[l] >= tTop || t.val[ret.Results[0]] >= tTop {
+						bad = l
+					}
+				}
+			}
+		}
+		if bad != nil {
+			a.Bad(construct, fn.Pos(), "the returned result may be the caller's own map; flow: %s", t.path(bad))
+		} else {
+			a.Ok(construct, fn.Pos(), "the returned result is never the caller's map itself")
+		}
+	}
+	return n
+}
